@@ -506,9 +506,48 @@ def reported_value(ctx, cr):
            sample={"fn": key, "number_constructors": sorted(kinds)})
 
 
+def no_entry_skipped(ctx, cr):
+    """every list element and every map entry of the loaded document becomes an element / entry of the value the rules see (and that
+    reports point into): in the MarkedValue -> PathAwareValue conversion every path through the body of the list loop and of the map
+    loop that goes on to the next item passes the push / insert of that item (paths that leave the loop are error returns).  A
+    `continue` for "already seen" keys makes a repeated key keep its first value while the document's last one is what the file says."""
+    rule = "R-C10-path-construction"
+    f = cr.fns.get(K_MARKED)
+    if not f:
+        ctx.lost(rule, rule + ":marked:no-entry-skipped", K_MARKED)
+        return
+    dom = flow.dominators(f)
+    succ = [M.successors(b["term"]) for b in f["blocks"]]
+    nexts = [bi for bi, t in M.iter_calls(f) if M.norm_path(t["fn"].get("decl", "")) == "std::iter::Iterator::next"]
+    n = 0
+    bad = []
+    for h in nexts:
+        body = flow.natural_loop(f, h, dom)
+        inner = [h2 for h2 in nexts if h2 != h and h2 in body]
+        collects = set(bi for bi, t in M.iter_calls(f) if bi in body and M.norm_path(t["fn"].get("path", "")).split("::")[-1] in ("push", "insert")
+                       and any(x in M.norm_path(t["fn"].get("path", "")) for x in ("Vec", "IndexMap")) and not any(bi in flow.natural_loop(f, h2, dom) for h2 in inner))
+        if not collects:
+            continue
+        n += 1
+        seen, st, escaped = set(), [x for x in succ[h] if x in body], False
+        while st:
+            b = st.pop()
+            if b in seen or b in collects or b not in body:
+                continue
+            if b == h:
+                escaped = True
+                break
+            seen.add(b)
+            st.extend(succ[b])
+        if escaped:
+            bad.append("the loop at l.%s can go on to the next item without the push / insert of the current one" % f["blocks"][h]["term"].get("ln"))
+    ctx.ob(rule, rule + ":marked:no-entry-skipped", not bad and n >= 2, "; ".join(bad) or "%d collection loops: every item is pushed / inserted before the next one" % n, fn=f)
+
+
 def run(ctx):
     cr = ctx.lib
     reported_value(ctx, cr)
+    no_entry_skipped(ctx, cr)
     loaders(ctx, cr)
     primitives(ctx, cr)
     unresolved_point(ctx, cr)
